@@ -22,11 +22,13 @@ pub struct Sink<'i> {
     pub err: Vec<&'static str>,
     pub cur: &'static str,
     pub keep_text: bool,
+    /// also Debug-render complete results (payload bytes included); expensive, part of C02's property
+    pub full: bool,
 }
 
 impl<'i> Sink<'i> {
     pub fn new(input: &'i [u8], keep_text: bool) -> Sink<'i> {
-        Sink { input, text: String::new(), bad: vec![], evals: 0, ok: vec![], err: vec![], cur: "", keep_text }
+        Sink { input, text: String::new(), bad: vec![], evals: 0, ok: vec![], err: vec![], cur: "", keep_text, full: !keep_text }
     }
     #[inline]
     pub fn enter(&mut self, case: &mut Case, name: &'static str) {
@@ -44,6 +46,14 @@ impl<'i> Sink<'i> {
         } else {
             let mut n = NullW;
             let _ = write!(n, "{:?}", v);
+        }
+    }
+    /// Debug rendering of a complete (payload carrying) result
+    pub fn big<T: Debug + ?Sized>(&mut self, label: &str, v: &T) {
+        if self.full {
+            self.dbg(label, v);
+        } else if self.keep_text {
+            let _ = write!(self.text, "{}; ", label);
         }
     }
     pub fn disp<T: Display + ?Sized>(&mut self, label: &str, v: &T) {
@@ -81,7 +91,7 @@ impl<'i> Sink<'i> {
             Ok(v) => {
                 self.ok.push(self.cur);
                 // Debug rendering of the complete result, once, at top level
-                self.dbg("Ok", v);
+                self.big("Ok", v);
                 true
             }
             Err(e) => {
@@ -595,7 +605,7 @@ pub fn icmpv6(s: &mut Sink, i: &Icmpv6Slice) {
     s.dbg("valid", &i.is_checksum_valid([1; 16], [2; 16]));
     match i.payload_slice() {
         Ok(p) => {
-            s.dbg("ps", &p);
+            s.big("ps", &p);
             s.sl("ps.slice", p.slice());
             use icmpv6::Icmpv6PayloadSlice::*;
             match &p {
@@ -938,7 +948,7 @@ pub fn run_door(door: Door, b: &[u8], s: &mut Sink, case: &mut Case) {
             }
             s.enter(case, "LaxSlicedPacket::from_ether_type");
             let r = LaxSlicedPacket::from_ether_type(et, b);
-            s.dbg("value", &r);
+            s.big("value", &r);
             lax_sliced(s, &r);
             s.enter(case, "PacketHeaders::from_ether_type");
             let r = PacketHeaders::from_ether_type(et, b);
@@ -947,7 +957,7 @@ pub fn run_door(door: Door, b: &[u8], s: &mut Sink, case: &mut Case) {
             }
             s.enter(case, "LaxPacketHeaders::from_ether_type");
             let r = LaxPacketHeaders::from_ether_type(et, b);
-            s.dbg("value", &r);
+            s.big("value", &r);
             lax_headers(s, &r);
             match t {
                 0x8100 | 0x88A8 | 0x9100 => {
